@@ -24,6 +24,9 @@ const (
 	// calcLIB takes element (len-1)/3 of the pre-LIBs of the producers SEEN SO FAR: a LIB selected while k producers were
 	// known is re-selected lower once another producer's first block adds a genesis placeholder entry (n >= 5).
 	classNewProducer = "C08-lib-decreases-when-producer-first-seen"
+	// rollbackStatusTo (load) overwrites only the proposed entries the replayed window yields; entries of other producers keep
+	// pre-LIBs (and confirming blocks) of the abandoned branch, and calcLIB can select one: the LIB is then not on the main chain.
+	classStaleEntry = "C08-lib-from-stale-entry-of-abandoned-branch"
 )
 
 var arrNames = []string{"known", "orphan", "rejected-le-lib", "main", "side", "reorg", "reorg-vetoed"}
@@ -80,24 +83,42 @@ func (n *node) afterArrival(b *sblk, res int) {
 	// monotone
 	if lib.No < n.lastNo {
 		class := ""
-		if res == arrReorg {
+		if res == arrReorg || n.reorgSinceRaise {
 			class = classReorgRegress
 		} else if res == arrMain && len(d.Prpsd) > n.prpsdAtRaise {
 			class = classNewProducer
+		}
+		if class != "" && n.taint == "" {
+			n.taint = class // the vetoes now work with the lowered LIB: what follows on this node is a consequence
 		}
 		n.fail(fmt.Sprintf("reported LIB number decreased from %d to %d (arrival of %s: %s)", n.lastNo, lib.No, b.name, arrNames[res]), class)
 	}
 	if lib.No > n.lastNo {
 		w.run.Count("lib-advanced")
 		n.prpsdAtRaise = len(d.Prpsd)
+		n.reorgSinceRaise = false
+	}
+	if res == arrReorg {
+		n.reorgSinceRaise = true
 	}
 	// on the main chain
 	var lb *sblk
 	if lib.No > 0 || lib.Hash != "" {
 		lb = w.blocks[lib.Hash]
 		if lb == nil || lib.No >= uint64(len(n.main)) || n.main[lib.No] != lb {
+			// shape of the stale-entry class: the LIB is the pre-LIB of a proposed entry whose confirming block is itself off the main chain
+			class := ""
+			for _, p := range d.Prpsd {
+				by := w.blocks[p.By.Hash]
+				if !p.Nil && p.Plib.Hash == lib.Hash && by != nil && (by.no >= uint64(len(n.main)) || n.main[by.no] != by) {
+					class = classStaleEntry
+				}
+			}
+			if class != "" && n.taint == "" {
+				n.taint = class
+			}
 			n.fail(fmt.Sprintf("reported LIB %s is not a block of the node's main chain (main chain has %s at %d, best %s)",
-				w.showBI(lib), nameAt(n.main, lib.No), lib.No, n.best.name), "")
+				w.showBI(lib), nameAt(n.main, lib.No), lib.No, n.best.name), class)
 		}
 	}
 	// quorum: a new LIB needs blocks of more than two thirds of the producers at or above it
